@@ -36,6 +36,9 @@ func c01RR(c *Ctx, stream string, g *GenRR) {
 		if d := checkFields(rr, g); d != "" {
 			return "field-mismatch " + d
 		}
+		if d := tlvFields(rr, g.Rdata); d != "" {
+			return "tlv-field-mismatch " + d
+		}
 		w2, err := packRRBytes(rr)
 		if err != nil {
 			return "repack-error: " + err.Error()
@@ -95,6 +98,8 @@ func genOPT(r *Rng) *GenRR {
 		g.TTL |= uint32(r.Intn(256)) << 24
 	}
 	g.Rdata = genOptions(r)
+	g.Fields = map[string]interface{}{"Option": g.Rdata}
+	g.Kinds = map[string]string{"Option": "tlv"}
 	g.Wire = assembleRR(nil, g.Type, g.Class, g.TTL, g.Rdata)
 	return g
 }
@@ -105,7 +110,8 @@ func codecLine(pl *specPlan, g *GenRR) (string, bool) {
 	covered := map[string]bool{"unpackUint8": true, "unpackUint16": true, "unpackUint32": true, "unpackUint48": true, "unpackUint64": true,
 		"unpackDataA": true, "unpackDataAAAA": true, "unpackString": true, "UnpackDomainName": true, "unpackStringHex": true,
 		"unpackStringBase64": true, "unpackStringBase32": true, "unpackStringAny": true, "unpackStringOctet": true, "unpackStringTxt": true,
-		"unpackDataNsec": true}
+		"unpackDataNsec": true, "unpackIPSECGateway": true, "unpackDataDomainNames": true,
+		"unpackDataOpt": true, "unpackDataSVCB": true, "unpackDataApl": true}
 	var out []string
 	for _, s := range pl.Steps {
 		if s.Codec == "earlyexit" {
@@ -115,6 +121,17 @@ func codecLine(pl *specPlan, g *GenRR) (string, bool) {
 			return "", false
 		}
 		v := g.Fields[s.Field]
+		if s.Codec == "unpackIPSECGateway" {
+			// one step, two struct fields: the address (types 1, 2), the host name (type 3) or nothing
+			if a, ok := g.Fields["GatewayAddr"]; ok {
+				out = append(out, "b:"+hx(a.([]byte)))
+			} else if h, ok := g.Fields["GatewayHost"]; ok {
+				out = append(out, "t:"+hxs(presentLabels(h.([][]byte))))
+			} else {
+				out = append(out, "b:-")
+			}
+			continue
+		}
 		hexOrDash := func(b []byte) string {
 			if len(b) == 0 {
 				return "-"
@@ -141,6 +158,52 @@ func codecLine(pl *specPlan, g *GenRR) (string, bool) {
 				}
 			}
 			out = append(out, "s:"+strings.Join(parts, ","))
+		case "names":
+			all := v.([][][]byte)
+			if len(all) == 0 {
+				out = append(out, "m:-")
+				break
+			}
+			var parts []string
+			for _, ls := range all {
+				parts = append(parts, hxs(presentLabels(ls)))
+			}
+			out = append(out, "m:"+strings.Join(parts, ","))
+		case "tlv":
+			// (code, value octets) pairs read off the generated octets
+			seg := v.([]byte)
+			var parts []string
+			for len(seg) >= 4 {
+				n := int(seg[2])<<8 | int(seg[3])
+				d := "~"
+				if n > 0 {
+					d = hx(seg[4 : 4+n])
+				}
+				parts = append(parts, fmt.Sprintf("%d=%s", int(seg[0])<<8|int(seg[1]), d))
+				seg = seg[4+n:]
+			}
+			if len(parts) == 0 {
+				out = append(out, "k:-")
+			} else {
+				out = append(out, "k:"+strings.Join(parts, ","))
+			}
+		case "apl":
+			seg := v.([]byte)
+			var parts []string
+			for len(seg) >= 4 {
+				full := 4
+				if seg[1] == 2 {
+					full = 16
+				}
+				n := int(seg[3] & 0x7f)
+				parts = append(parts, fmt.Sprintf("%d/%d/%s", seg[2], seg[3]>>7, hx(padTo(seg[4:4+n], full))))
+				seg = seg[4+n:]
+			}
+			if len(parts) == 0 {
+				out = append(out, "p:-")
+			} else {
+				out = append(out, "p:"+strings.Join(parts, ","))
+			}
 		case "nsec":
 			ts := v.([]uint16)
 			if len(ts) == 0 {
@@ -213,6 +276,12 @@ func runC01(c *Ctx) {
 				c01Codec(c, g)
 			}
 		}
+	}
+	// OPT on its own (owner root, class and TTL carry the EDNS0 header fields)
+	for i := 0; i < per; i++ {
+		g := genOPT(r)
+		c01RR(c, "rr", g)
+		c01Codec(c, g)
 	}
 	// unknown / private-range types as RFC 3597
 	for i := 0; i < c.Scale(500, 10000); i++ {
